@@ -1,9 +1,9 @@
 INIT Init
 NEXT Next
-INVARIANTS ImplRefines
+INVARIANTS Emit
 CHECK_DEADLOCK FALSE
 CONSTANTS
   MaxOps = 2
   Big = FALSE
-  CheckImpl = TRUE
-  NonAscii = FALSE
+  CheckImpl = FALSE
+  NonAscii = TRUE
